@@ -442,6 +442,10 @@ namespace vt {
         for (int r = 1; r <= rounds; ++r)
         {
             c->reg[i].store(r, std::memory_order_release);    // registered as a waiter for round r
+            {
+                std::lock_guard<pika::concurrency::detail::spinlock> l(c->cvm);
+            }
+            c->cv.notify_all();    // wakers that run as tasks block on the cv instead of spin-yielding
             while (c->flag[i].load(std::memory_order_acquire) < r)
                 blocking(b, [] { pika::execution::this_thread::detail::suspend("verif-wait"); });
         }
@@ -452,10 +456,25 @@ namespace vt {
             if (on_pika) yield_now();
             else std::this_thread::yield();
         };
-        while (!c->idready[i].load(std::memory_order_acquire)) relax();
+        if (on_pika)
+        {
+            std::unique_lock<pika::concurrency::detail::spinlock> l(c->cvm);
+            c->cv.wait(l, [&] { return c->idready[i].load(std::memory_order_acquire) != 0; });
+        }
+        else
+            while (!c->idready[i].load(std::memory_order_acquire)) relax();
         for (int r = 1; r <= rounds; ++r)
         {
-            while (c->reg[i].load(std::memory_order_acquire) < r) relax();
+            if (on_pika)
+            {
+                // do not spin-yield: with the per-producer FIFO back-end a task that keeps
+                // re-queueing itself can starve a runnable task pushed by another OS thread for
+                // ever (fairness, outside C01/C02) — wait on a condition variable instead
+                std::unique_lock<pika::concurrency::detail::spinlock> l(c->cvm);
+                c->cv.wait(l, [&] { return c->reg[i].load(std::memory_order_acquire) >= r; });
+            }
+            else
+                while (c->reg[i].load(std::memory_order_acquire) < r) relax();
             c->flag[i].store(r, std::memory_order_release);
             c->wakeups_issued.fetch_add(1);
             pika::error_code ec(pika::throwmode::lightweight);
@@ -472,7 +491,8 @@ namespace vt {
         std::uint64_t seed = 1;
         long total_events = 0, total_chains = 0, total_tasks = 0;
         int mon_hits = 0;
-        double timeout_s = 25.0;
+        double timeout_s = 60.0;
+        bool inconclusive = false;
 
         thread_pool_base* pool() { return get_self_or_default_pool(); }
 
@@ -507,14 +527,47 @@ namespace vt {
                     quiet = (busy == 0) ? quiet + 1 : 0;
                     // idle for a long stretch (2500 polls of >= 200us each, i.e. well over 0.5 s
                     // without a single runnable task) although tasks are missing from the ledger
-                    if (quiet > 2500 || el > timeout_s)
+                    if (quiet > 2500)
                     {
                         long sus = p->get_thread_count_suspended(std::size_t(-1), false);
                         counts("watchdog", c);
                         std::printf("MON %d %s kind=%s done=%d expected=%d suspended=%ld wakeups_issued=%ld quiet=%d\n", c.id,
-                            (busy == 0 && sus > 0) ? "lost_wakeup" : (busy == 0 ? "dropped" : "hang"), c.kind.c_str(),
-                            c.done.load(), expected, sus, c.wakeups_issued.load(), quiet);
+                            sus > 0 ? "lost_wakeup" : "dropped", c.kind.c_str(), c.done.load(), expected, sus,
+                            c.wakeups_issued.load(), quiet);
                         std::fflush(stdout);
+                        return false;
+                    }
+                    if (el > timeout_s)
+                    {
+                        // the runtime is NOT quiescent: slow progress and livelock cannot be told
+                        // apart by the clock, so this is reported as inconclusive, never as a hit
+                        counts("timeout", c);
+                        for (int k = 0; k < c.K; ++k)
+                            std::printf("INFO %d task %d entered=%d exited=%d reg=%d flag=%d idready=%d\n", c.id, k,
+                                c.entered[k].load(), c.exited[k].load(), c.reg[k].load(), c.flag[k].load(), c.idready[k].load());
+                        std::printf("INCONCLUSIVE %d kind=%s busy after %.0fs done=%d expected=%d wakeups_issued=%ld\n", c.id,
+                            c.kind.c_str(), el, c.done.load(), expected, c.wakeups_issued.load());
+                        std::fflush(stdout);
+                        inconclusive = true;
+                        if (std::getenv("VERIF_DUMP"))
+                        {
+                            std::vector<Rec> recs;
+                            drain(recs);
+                            std::map<void const*, std::vector<Rec>> per;
+                            for (Rec const& r : recs) per[r.obj].push_back(r);
+                            for (auto& [obj, v] : per)
+                            {
+                                bool term = false;
+                                for (Rec const& r : v)
+                                    if (r.site == 103 && w_st(r.b) == 4) term = true;
+                                if (term || v.size() < 3) continue;
+                                std::printf("DUMP obj=%p n=%zu:", obj, v.size());
+                                for (std::size_t k = v.size() > 8 ? v.size() - 8 : 0; k < v.size(); ++k)
+                                    std::printf(" [%llu s%d os%u %d:%llu->%d:%llu]", (unsigned long long) v[k].seq, v[k].site, v[k].os,
+                                        w_st(v[k].a), (unsigned long long) w_tag(v[k].a), w_st(v[k].b), (unsigned long long) w_tag(v[k].b));
+                                std::printf("\n");
+                            }
+                        }
                         return false;
                     }
                 }
